@@ -1,2 +1,1007 @@
-// Package c09 will hold the check for property C09.
+// Package c09 decides C09: stores are safe under concurrent use.  Concurrent client goroutines
+// drive a real store; every call is recorded at the client boundary on one logical clock and
+// the history is checked with porcupine against M-mailbox, partitioned by mailbox.  Children run
+// from the -race build; crashes, race reports and wedges are attributed by the parent.
 package c09
+
+import (
+	"context"
+	"errors"
+	"fmt"
+	"runtime"
+	"sort"
+	"strings"
+	"sync"
+	"sync/atomic"
+	"time"
+	"unsafe"
+
+	"github.com/anishathalye/porcupine"
+	"github.com/inbucket/inbucket/v3/pkg/config"
+	"github.com/inbucket/inbucket/v3/pkg/extension"
+	"github.com/inbucket/inbucket/v3/pkg/extension/event"
+	"github.com/inbucket/inbucket/v3/pkg/storage"
+	"github.com/inbucket/inbucket/v3/pkg/stringutil"
+	"github.com/inbucket/inbucket/v3/pkg/verifhook"
+
+	"verifharness/internal/fw"
+	"verifharness/internal/sut"
+)
+
+func init() {
+	fw.Register(&fw.Prop{
+		ID:    "C09",
+		Level: "exploration",
+		Race:  true,
+		Rule: "(a) stress histories: 2-6 client goroutines x 6-18 operations (add/get/latest/list/mark-seen/remove/purge/visit/retention scan) on 1-3 " +
+			"mailboxes (incl. a pair sharing the file store's lock bucket) over six configurations (mem plain, cap, maxkb, cap+maxkb; file plain, cap), " +
+			"GOMAXPROCS 2/4/16, seeded yields and sleeps injected at the verif hook points; every call recorded at the client boundary on a logical clock " +
+			"and checked with porcupine against the ordered-mailbox model, partitioned by mailbox; (b) directed schedules that pause an AddMessage between " +
+			"'visible' and 'registered with the size enforcer' (or a VisitMailboxes between directory levels) while another goroutine removes, purges or adds. " +
+			"A history is non-trivial when it contains at least one pair of overlapping operations on the same mailbox; distinct by (config, multiset of " +
+			"overlapping operation-kind pairs).",
+		Assumptions: []string{
+			"seen flags are judged on single-message reads and at the final quiescent point, not inside list results (a list's seen flags are read lazily from shared message objects)",
+			"evictions by the global size enforcer are modelled as separate 'remove if present' operations spanning [call of the add that created the id, observation of its deleted event]; whether the right message was evicted is C08's question",
+			"the race detector only reports races that occur in the executions produced",
+			"file-store histories run one store at a time per child process",
+		},
+		MinObs: func(tier string) map[string]int64 {
+			return map[string]int64{"histories": 100, "overlapping_pairs": 2000, "porcupine_ok": 100, "directed_schedules": 8,
+				"hook_hits_mem.add.visible": 50, "hook_hits_file.fs": 50, "hook_hits_file.visit.level": 20}
+		},
+		Run: run,
+	})
+}
+
+// ---- recorded operations and the sequential model ------------------------------------------
+
+type opIn struct {
+	Kind    string // add get latest list seen remove purge evict
+	Mailbox string
+	ID      string
+}
+
+type opOut struct {
+	ID    string   // add: id returned; latest: id found
+	Found bool     // get/latest/seen/remove: the message existed
+	Seen  bool     // get/latest: seen flag
+	IDs   []string // list
+}
+
+// mstate is one mailbox of the model.  That ids are never handed out twice is checked over the
+// whole history before porcupine runs (all ids returned by adds must be pairwise distinct per
+// mailbox), which keeps the model state small.
+type mstate struct {
+	ids  []string
+	seen map[string]bool
+	cap  int
+}
+
+func (s mstate) clone() mstate {
+	n := mstate{ids: append([]string(nil), s.ids...), seen: map[string]bool{}, cap: s.cap}
+	for k, v := range s.seen {
+		n.seen[k] = v
+	}
+	return n
+}
+
+func (s mstate) index(id string) int {
+	for i, x := range s.ids {
+		if x == id {
+			return i
+		}
+	}
+	return -1
+}
+
+func modelFor(cap int) porcupine.Model {
+	return porcupine.Model{
+		Partition: func(history []porcupine.Operation) [][]porcupine.Operation {
+			m := map[string][]porcupine.Operation{}
+			var names []string
+			for _, o := range history {
+				mb := o.Input.(opIn).Mailbox
+				if _, ok := m[mb]; !ok {
+					names = append(names, mb)
+				}
+				m[mb] = append(m[mb], o)
+			}
+			sort.Strings(names)
+			var out [][]porcupine.Operation
+			for _, n := range names {
+				out = append(out, m[n])
+			}
+			return out
+		},
+		Init: func() interface{} { return mstate{seen: map[string]bool{}, cap: cap} },
+		Step: func(state, input, output interface{}) (bool, interface{}) {
+			s := state.(mstate)
+			in := input.(opIn)
+			out := output.(opOut)
+			switch in.Kind {
+			case "add":
+				if out.ID == "" || s.index(out.ID) >= 0 {
+					return false, s
+				}
+				n := s.clone()
+				n.ids = append(n.ids, out.ID)
+				if n.cap > 0 {
+					for len(n.ids) > n.cap {
+						delete(n.seen, n.ids[0])
+						n.ids = n.ids[1:]
+					}
+				}
+				return true, n
+			case "get":
+				i := s.index(in.ID)
+				if i < 0 {
+					return !out.Found, s
+				}
+				return out.Found && out.Seen == s.seen[in.ID], s
+			case "latest":
+				if len(s.ids) == 0 {
+					return !out.Found, s
+				}
+				last := s.ids[len(s.ids)-1]
+				return out.Found && out.ID == last && out.Seen == s.seen[last], s
+			case "list":
+				if len(out.IDs) != len(s.ids) {
+					return false, s
+				}
+				for i := range s.ids {
+					if s.ids[i] != out.IDs[i] {
+						return false, s
+					}
+				}
+				return true, s
+			case "seen":
+				if s.index(in.ID) < 0 {
+					return !out.Found, s
+				}
+				if !out.Found {
+					return false, s
+				}
+				if s.seen[in.ID] {
+					return true, s
+				}
+				n := s.clone()
+				n.seen[in.ID] = true
+				return true, n
+			case "remove":
+				i := s.index(in.ID)
+				if i < 0 {
+					return !out.Found, s
+				}
+				if !out.Found {
+					return false, s
+				}
+				n := s.clone()
+				n.ids = append(n.ids[:i], n.ids[i+1:]...)
+				delete(n.seen, in.ID)
+				return true, n
+			case "evict":
+				i := s.index(in.ID)
+				if i < 0 {
+					return true, s
+				}
+				n := s.clone()
+				n.ids = append(n.ids[:i], n.ids[i+1:]...)
+				delete(n.seen, in.ID)
+				return true, n
+			case "purge":
+				if len(s.ids) == 0 {
+					return true, s
+				}
+				n := s.clone()
+				n.ids = nil
+				n.seen = map[string]bool{}
+				return true, n
+			}
+			return false, s
+		},
+		Equal: func(a, b interface{}) bool {
+			x, y := a.(mstate), b.(mstate)
+			if len(x.ids) != len(y.ids) {
+				return false
+			}
+			for i := range x.ids {
+				if x.ids[i] != y.ids[i] || x.seen[x.ids[i]] != y.seen[y.ids[i]] {
+					return false
+				}
+			}
+			return true
+		},
+		DescribeOperation: func(input, output interface{}) string {
+			return fmt.Sprintf("%+v -> %+v", input, output)
+		},
+	}
+}
+
+// recorder collects the history.  It must not add synchronisation between client goroutines
+// (that would hide data races from the race detector: sync/atomic operations and mutexes are
+// happens-before edges), so timestamps come from the monotonic clock - used only as an ordering
+// source, never as a deadline - and every client appends to its own buffer, merged after join.
+type recorder struct {
+	base   time.Time
+	mu     sync.Mutex
+	ops    []porcupine.Operation
+	errs   []string
+	dupIDs []string
+	// addCall remembers the call time of the add that produced (mailbox,id).
+	addCall map[string]int64
+	deleted map[string]int64 // (mailbox,id) -> logical time the deleted event was observed
+	sighted map[string]int64 // (mailbox,id) -> latest call time of a read that saw the message
+}
+
+func newRecorder() *recorder {
+	return &recorder{base: time.Now(), addCall: map[string]int64{}, deleted: map[string]int64{}, sighted: map[string]int64{}}
+}
+
+func (r *recorder) now() int64 { return int64(time.Since(r.base)) }
+
+// merge moves a client's private buffer into the history (call after the client stopped).
+func (r *recorder) merge(c *client) {
+	for _, o := range c.ops {
+		r.add(o.ClientId, o.Input.(opIn), o.Call, o.Output.(opOut), o.Return)
+	}
+	c.ops = nil
+}
+
+func (r *recorder) add(client int, in opIn, call int64, out opOut, ret int64) {
+	r.mu.Lock()
+	r.ops = append(r.ops, porcupine.Operation{ClientId: client, Input: in, Call: call, Output: out, Return: ret})
+	if in.Kind == "add" && out.ID != "" {
+		k := in.Mailbox + "\x00" + out.ID
+		if _, dup := r.addCall[k]; dup {
+			r.dupIDs = append(r.dupIDs, k)
+		}
+		r.addCall[k] = call
+	}
+	// A read that saw the message proves it had not been evicted before the read was called.
+	see := func(id string) {
+		k := in.Mailbox + "\x00" + id
+		if r.sighted[k] < call {
+			r.sighted[k] = call
+		}
+	}
+	switch in.Kind {
+	case "list":
+		for _, id := range out.IDs {
+			see(id)
+		}
+	case "get", "latest":
+		if out.Found {
+			see(out.ID)
+		}
+	}
+	r.mu.Unlock()
+}
+
+func (r *recorder) fail(format string, a ...any) {
+	r.mu.Lock()
+	if len(r.errs) < 10 {
+		r.errs = append(r.errs, fmt.Sprintf(format, a...))
+	}
+	r.mu.Unlock()
+}
+
+// listen registers the deleted-event listener; events are delivered asynchronously, so drain()
+// emits a sentinel and waits for it (per-listener FIFO) before the history is judged.
+func (r *recorder) listen(host *extension.Host) (drain func(c *fw.Ctx) bool) {
+	sentinel := make(chan struct{}, 4)
+	host.Events.AfterMessageDeleted.AddListener("c09", func(m event.MessageMetadata) {
+		if m.Mailbox == "\x00sentinel" {
+			sentinel <- struct{}{}
+			return
+		}
+		t := r.now()
+		r.mu.Lock()
+		k := m.Mailbox + "\x00" + m.ID
+		if _, ok := r.deleted[k]; !ok {
+			r.deleted[k] = t
+		}
+		r.mu.Unlock()
+	})
+	return func(c *fw.Ctx) bool {
+		host.Events.AfterMessageDeleted.Emit(&event.MessageMetadata{Mailbox: "\x00sentinel"})
+		ok, _ := c.Within(30*time.Second, func() { <-sentinel })
+		// Listener invocations that were started before the sentinel's may still be running on a
+		// tree without per-listener ordering; give them a logical chance to finish.
+		for i := 0; i < 50; i++ {
+			runtime.Gosched()
+		}
+		return ok
+	}
+}
+
+// ---- client operations against the real store ----------------------------------------------
+
+type client struct {
+	id  int
+	st  storage.Store
+	rec *recorder
+	ops []porcupine.Operation // private buffer, merged into rec after the client stopped
+}
+
+func (c *client) record(in opIn, call int64, out opOut, ret int64) {
+	c.ops = append(c.ops, porcupine.Operation{ClientId: c.id, Input: in, Call: call, Output: out, Return: ret})
+}
+
+func notExist(err error) bool { return errors.Is(err, storage.ErrNotExist) }
+
+func (c *client) Add(mailbox string, size int, date time.Time) string {
+	body := "Subject: s\r\n\r\n" + strings.Repeat("x", size)
+	d := sut.NewDelivery(mailbox, nil, nil, "s", date, []byte(body))
+	t0 := c.rec.now()
+	id, err := c.st.AddMessage(d)
+	t1 := c.rec.now()
+	if err != nil {
+		c.rec.fail("AddMessage(%q): %v", mailbox, err)
+		return ""
+	}
+	c.record(opIn{Kind: "add", Mailbox: mailbox}, t0, opOut{ID: id}, t1)
+	return id
+}
+
+func (c *client) Get(mailbox, id string) {
+	kind := "get"
+	if id == "latest" {
+		kind = "latest"
+	}
+	t0 := c.rec.now()
+	m, err := c.st.GetMessage(mailbox, id)
+	out := opOut{}
+	if err == nil && m != nil {
+		out.Found = true
+		out.Seen = m.Seen()
+		out.ID = m.ID()
+	}
+	t1 := c.rec.now()
+	if err != nil && !notExist(err) {
+		c.rec.fail("GetMessage(%q,%q): %v", mailbox, id, err)
+		return
+	}
+	in := opIn{Kind: kind, Mailbox: mailbox}
+	if kind == "get" {
+		in.ID = id
+	}
+	c.record(in, t0, out, t1)
+}
+
+func (c *client) List(mailbox string) []string {
+	t0 := c.rec.now()
+	ms, err := c.st.GetMessages(mailbox)
+	var ids []string
+	for _, m := range ms {
+		ids = append(ids, m.ID())
+	}
+	t1 := c.rec.now()
+	if err != nil {
+		c.rec.fail("GetMessages(%q): %v", mailbox, err)
+		return nil
+	}
+	c.record(opIn{Kind: "list", Mailbox: mailbox}, t0, opOut{IDs: ids}, t1)
+	return ids
+}
+
+func (c *client) MarkSeen(mailbox, id string) {
+	t0 := c.rec.now()
+	err := c.st.MarkSeen(mailbox, id)
+	t1 := c.rec.now()
+	if err != nil && !notExist(err) {
+		c.rec.fail("MarkSeen(%q,%q): %v", mailbox, id, err)
+		return
+	}
+	c.record(opIn{Kind: "seen", Mailbox: mailbox, ID: id}, t0, opOut{Found: err == nil}, t1)
+}
+
+func (c *client) Remove(mailbox, id string) error {
+	t0 := c.rec.now()
+	err := c.st.RemoveMessage(mailbox, id)
+	t1 := c.rec.now()
+	if err != nil && !notExist(err) {
+		c.rec.fail("RemoveMessage(%q,%q): %v", mailbox, id, err)
+		return err
+	}
+	c.record(opIn{Kind: "remove", Mailbox: mailbox, ID: id}, t0, opOut{Found: err == nil}, t1)
+	return err
+}
+
+func (c *client) Purge(mailbox string) {
+	t0 := c.rec.now()
+	err := c.st.PurgeMessages(mailbox)
+	t1 := c.rec.now()
+	if err != nil {
+		c.rec.fail("PurgeMessages(%q): %v", mailbox, err)
+		return
+	}
+	c.record(opIn{Kind: "purge", Mailbox: mailbox}, t0, opOut{}, t1)
+}
+
+// Visit records each callback as a list-read of that mailbox spanning (previous callback
+// return, callback entry].
+func (c *client) Visit(f func([]storage.Message) bool) error {
+	prev := c.rec.now()
+	err := c.st.VisitMailboxes(func(ms []storage.Message) bool {
+		t1 := c.rec.now()
+		if len(ms) > 0 {
+			var ids []string
+			for _, m := range ms {
+				ids = append(ids, m.ID())
+			}
+			c.record(opIn{Kind: "list", Mailbox: ms[0].Mailbox()}, prev, opOut{IDs: ids}, t1)
+		}
+		cont := true
+		if f != nil {
+			cont = f(ms)
+		}
+		prev = c.rec.now()
+		return cont
+	})
+	if err != nil {
+		c.rec.fail("VisitMailboxes: %v", err)
+	}
+	return err
+}
+
+// scanStore is the storage.Store handed to the real RetentionScanner: its visits and removes
+// become ordinary client operations of the history.
+type scanStore struct {
+	storage.Store
+	c *client
+}
+
+func (s scanStore) VisitMailboxes(f func([]storage.Message) bool) error { return s.c.Visit(f) }
+func (s scanStore) RemoveMessage(mailbox, id string) error              { return s.c.Remove(mailbox, id) }
+
+// ---- configurations ---------------------------------------------------------------------------
+
+type cfg struct {
+	name    string
+	backend string
+	cap     int
+	maxkb   int
+}
+
+var configs = []cfg{
+	{"mem-plain", "mem", 0, 0}, {"mem-cap", "mem", 3, 0}, {"mem-maxkb", "mem", 0, 4}, {"mem-cap-maxkb", "mem", 3, 4},
+	{"file-plain", "file", 0, 0}, {"file-cap", "file", 3, 0},
+}
+
+var bucketPair [2]string
+
+func init() {
+	// Two mailbox names whose SHA-1 shares the first three hex digits (same file-store lock and
+	// level-1 directory).
+	seen := map[string]string{}
+	for i := 0; ; i++ {
+		n := fmt.Sprintf("pair%d", i)
+		h := stringutil.HashMailboxName(n)[:3]
+		if o, ok := seen[h]; ok {
+			bucketPair = [2]string{o, n}
+			return
+		}
+		seen[h] = n
+	}
+}
+
+func newStore(c *fw.Ctx, cf cfg, host *extension.Host) storage.Store {
+	sc := config.Storage{Type: "memory", Params: map[string]string{}, MailboxMsgCap: cf.cap}
+	if cf.maxkb > 0 {
+		sc.Params["maxkb"] = fmt.Sprint(cf.maxkb)
+	}
+	if cf.backend == "file" {
+		sc.Type = "file"
+		sc.Params["path"] = c.TempDir("c09fs")
+	}
+	st, err := sut.NewStore(cf.backend, sc, host)
+	if err != nil {
+		panic(err)
+	}
+	return st
+}
+
+// ---- run ------------------------------------------------------------------------------------
+
+func run(c *fw.Ctx) {
+	n := c.N(1200, 30000)
+	c.Cases("stress", n, func(i int, r *fw.Rand) { stress(c, i, r) })
+	c.Cases("directed", c.N(48, 480), func(i int, r *fw.Rand) { directed(c, i, r) })
+	verifhook.Set(nil)
+}
+
+// Hook hit counters are striped by the caller's stack address so that goroutines (almost
+// always) touch different atomics: an atomic shared by all goroutines inside the code under test
+// would order their accesses and hide races.
+const stripes = 256
+
+var hookSites = []string{"mem.add.visible", "file.fs", "file.visit.level", "smtp.session.accepted"}
+var hookCounts [4][stripes]struct {
+	n atomic.Int64
+	_ [56]byte
+}
+
+func stripe() int {
+	var x byte
+	return int((uintptr(unsafe.Pointer(&x)) >> 11) % stripes)
+}
+
+func countHook(site string) int64 {
+	for i, s := range hookSites {
+		if s == site {
+			return hookCounts[i][stripe()].n.Add(1)
+		}
+	}
+	return 0
+}
+
+func flushHookCounts(c *fw.Ctx) {
+	for i, s := range hookSites {
+		var n int64
+		for j := range hookCounts[i] {
+			n += hookCounts[i][j].n.Swap(0)
+		}
+		if n > 0 {
+			c.Count("hook_hits_"+s, n)
+		}
+	}
+}
+
+func stress(c *fw.Ctx, idx int, r *fw.Rand) {
+	cf := configs[idx%len(configs)]
+	procs := []int{2, 4, 16}[(idx/len(configs))%3]
+	old := runtime.GOMAXPROCS(procs)
+	defer runtime.GOMAXPROCS(old)
+
+	// Seeded perturbation at the hook points: yield or sleep a little.
+	salt := r.Uint64()
+	prob := uint64(r.Range(0, 3)) // 0: no injection, else 1/prob... see below
+	verifhook.Set(func(site string, args ...string) {
+		k := uint64(countHook(site))
+		if prob == 0 {
+			return
+		}
+		x := ((k+uint64(stripe())<<20)*0x9E3779B97F4A7C15 ^ salt) >> 33
+		switch x % (4 * prob) {
+		case 0:
+			runtime.Gosched()
+		case 1:
+			time.Sleep(time.Duration(x%200) * time.Microsecond)
+		}
+	})
+	defer verifhook.Set(nil)
+
+	host := extension.NewHost()
+	rec := newRecorder()
+	drain := rec.listen(host)
+	st := newStore(c, cf, host)
+
+	nmb := r.Range(1, 3)
+	boxes := []string{bucketPair[0], bucketPair[1], "solo"}[:nmb]
+	if nmb == 1 && r.Bool() {
+		boxes = []string{"solo"}
+	}
+	// Many short histories beat one enormous one: linearizability checking cost climbs steeply
+	// with the number of concurrent operations per mailbox.
+	nclients := r.Range(2, 6)
+	nops := r.Range(6, 18)
+	if nclients*nops > 40*nmb {
+		nops = 40 * nmb / nclients
+	}
+	now := time.Now()
+	type plan struct {
+		kinds []int
+		args  []uint64
+	}
+	plans := make([]plan, nclients)
+	for ci := range plans {
+		for k := 0; k < nops; k++ {
+			// add get latest list seen remove purge visit scan
+			plans[ci].kinds = append(plans[ci].kinds, r.Weighted([]int{30, 10, 6, 12, 8, 14, 4, 5, 2}))
+			plans[ci].args = append(plans[ci].args, r.Uint64())
+		}
+	}
+	var wg sync.WaitGroup
+	start := make(chan struct{})
+	clients := make([]*client, nclients)
+	ok, dump := c.Within(120*time.Second, func() {
+		for ci := 0; ci < nclients; ci++ {
+			wg.Add(1)
+			go func(ci int) {
+				defer wg.Done()
+				cl := &client{id: ci, st: st, rec: rec}
+				defer func() { clients[ci] = cl }()
+				var known []struct{ mb, id string } // ids this client has seen
+				<-start
+				for k, kind := range plans[ci].kinds {
+					a := plans[ci].args[k]
+					mb := boxes[int(a%uint64(len(boxes)))]
+					pick := func() (string, string) {
+						if len(known) == 0 || (a>>8)%7 == 0 {
+							return mb, fmt.Sprint(1 + (a>>16)%5) // a guess: may or may not exist
+						}
+						e := known[int((a>>20)%uint64(len(known)))]
+						return e.mb, e.id
+					}
+					switch kind {
+					case 0:
+						size := int(1 + (a>>12)%1500)
+						date := now
+						if (a>>40)%4 == 0 {
+							date = now.Add(-3 * time.Hour) // expired for the retention scan
+						}
+						if id := cl.Add(mb, size, date); id != "" {
+							known = append(known, struct{ mb, id string }{mb, id})
+						}
+					case 1:
+						m, id := pick()
+						cl.Get(m, id)
+					case 2:
+						cl.Get(mb, "latest")
+					case 3:
+						for _, id := range cl.List(mb) {
+							if len(known) < 64 {
+								known = append(known, struct{ mb, id string }{mb, id})
+							}
+						}
+					case 4:
+						m, id := pick()
+						cl.MarkSeen(m, id)
+					case 5:
+						m, id := pick()
+						_ = cl.Remove(m, id)
+					case 6:
+						cl.Purge(mb)
+					case 7:
+						_ = cl.Visit(nil)
+					case 8:
+						rs := storage.NewRetentionScanner(config.Storage{RetentionPeriod: time.Hour, RetentionSleep: 0}, scanStore{st, cl})
+						if err := rs.DoScan(context.Background()); err != nil {
+							rec.fail("retention DoScan: %v", err)
+						}
+					}
+				}
+			}(ci)
+		}
+		close(start)
+		wg.Wait()
+	})
+	flushHookCounts(c)
+	if !ok {
+		c.Hang("store-ops", fmt.Sprintf("concurrent store operations did not complete (config %s)", cf.name), dump)
+		return
+	}
+	for _, cl := range clients {
+		if cl != nil {
+			rec.merge(cl)
+		}
+	}
+	if !drain(c) {
+		c.Inconclusive("deleted-event listener did not drain")
+		return
+	}
+	// Final quiescent observation by one more client.
+	fin := &client{id: nclients, st: st, rec: rec}
+
+	var total int64
+	for _, mb := range boxes {
+		fin.List(mb)
+		ms, _ := st.GetMessages(mb)
+		for _, m := range ms {
+			total += m.Size()
+			fin.Get(mb, m.ID())
+		}
+	}
+	rec.merge(fin)
+	judge(c, cf, rec, fmt.Sprintf("stress cfg=%s procs=%d clients=%d ops=%d boxes=%d", cf.name, procs, nclients, nops, nmb), total)
+}
+
+// judge checks the recorded history.
+func judge(c *fw.Ctx, cf cfg, rec *recorder, desc string, total int64) {
+	rec.mu.Lock()
+	ops := append([]porcupine.Operation(nil), rec.ops...)
+	errs := append([]string(nil), rec.errs...)
+	// Size-limit evictions: one synthetic 'remove if present' per deleted event.
+	if cf.maxkb > 0 {
+		end := rec.now() + 1
+		for k, t := range rec.deleted {
+			call, ok := rec.addCall[k]
+			if !ok {
+				continue
+			}
+			parts := strings.SplitN(k, "\x00", 2)
+			if t > end {
+				t = end
+			}
+			if sc := rec.sighted[k]; sc > call && sc < t {
+				call = sc
+			}
+			ops = append(ops, porcupine.Operation{ClientId: 99, Input: opIn{Kind: "evict", Mailbox: parts[0], ID: parts[1]},
+				Call: call, Output: opOut{}, Return: t})
+		}
+	}
+	dups := append([]string(nil), rec.dupIDs...)
+	rec.mu.Unlock()
+	for _, d := range dups {
+		c.Violation("C09:duplicate-id", fmt.Sprintf("%s: two deliveries received the same id %q", desc, strings.ReplaceAll(d, "\x00", "/")), nil)
+	}
+	c.Count("histories", 1)
+	c.Count("operations", int64(len(ops)))
+	for _, e := range errs {
+		key := "C09:op-error"
+		if strings.Contains(e, "VisitMailboxes") || strings.Contains(e, "DoScan") {
+			key = "C09:visit-error"
+		}
+		c.Violation(key, desc+": "+e, nil)
+	}
+	if cf.maxkb > 0 && total > int64(cf.maxkb)*1024 {
+		c.Violation("C09:size-limit-exceeded-at-rest", fmt.Sprintf("%s: %d bytes stored at the final quiescent point, limit %d", desc, total, cf.maxkb*1024), nil)
+	}
+	// Overlap statistics.
+	pairs, sig := overlaps(ops)
+	c.Count("overlapping_pairs", int64(pairs))
+	if pairs > 0 {
+		c.NonTrivial(cf.name + "|" + sig)
+	}
+	res, info := porcupine.CheckOperationsVerbose(modelFor(cf.cap), ops, 10*time.Second*time.Duration(c.Slow))
+	switch res {
+	case porcupine.Ok:
+		c.Count("porcupine_ok", 1)
+	case porcupine.Unknown:
+		c.Count("porcupine_unknown", 1)
+		c.Inconclusive("porcupine timed out on " + desc)
+	case porcupine.Illegal:
+		c.Count("porcupine_illegal", 1)
+		_ = info
+		c.Violation("C09:not-linearizable:"+cf.name, desc+": history is not linearizable against the ordered-mailbox model",
+			map[string]any{"history": renderHistory(ops)})
+	}
+	if len(ops) > 0 {
+		c.Sample(map[string]any{"case": desc, "history_head": renderHistory(ops[:min(len(ops), 12)])})
+	}
+}
+
+func min(a, b int) int {
+	if a < b {
+		return a
+	}
+	return b
+}
+
+func renderHistory(ops []porcupine.Operation) []string {
+	sort.Slice(ops, func(i, j int) bool { return ops[i].Call < ops[j].Call })
+	var out []string
+	for _, o := range ops {
+		if len(out) >= 400 {
+			out = append(out, "...")
+			break
+		}
+		out = append(out, fmt.Sprintf("[%d,%d] c%d %+v -> %+v", o.Call, o.Return, o.ClientId, o.Input, o.Output))
+	}
+	return out
+}
+
+// overlaps counts pairs of operations on the same mailbox whose intervals intersect.
+func overlaps(ops []porcupine.Operation) (int, string) {
+	by := map[string][]porcupine.Operation{}
+	for _, o := range ops {
+		in := o.Input.(opIn)
+		if in.Kind == "evict" {
+			continue
+		}
+		by[in.Mailbox] = append(by[in.Mailbox], o)
+	}
+	n := 0
+	kinds := map[string]bool{}
+	for _, l := range by {
+		sort.Slice(l, func(i, j int) bool { return l[i].Call < l[j].Call })
+		for i := range l {
+			for j := i + 1; j < len(l) && l[j].Call <= l[i].Return; j++ {
+				n++
+				a, b := l[i].Input.(opIn).Kind, l[j].Input.(opIn).Kind
+				if a > b {
+					a, b = b, a
+				}
+				kinds[a+"/"+b] = true
+			}
+		}
+	}
+	var ks []string
+	for k := range kinds {
+		ks = append(ks, k)
+	}
+	sort.Strings(ks)
+	return n, strings.Join(ks, ",")
+}
+
+// ---- directed schedules ------------------------------------------------------------------------
+
+// gate pauses the first hook call that matches and lets the test release it.
+type gate struct {
+	match   func(site string, args []string) bool
+	reached chan struct{}
+	release chan struct{}
+	once    sync.Once
+}
+
+func newGate(match func(site string, args []string) bool) *gate {
+	return &gate{match: match, reached: make(chan struct{}), release: make(chan struct{})}
+}
+
+func (g *gate) hook(site string, args ...string) {
+	countHook(site)
+	if g.match(site, args) {
+		first := false
+		g.once.Do(func() { first = true })
+		if first {
+			close(g.reached)
+			<-g.release
+		}
+	}
+}
+
+func directed(c *fw.Ctx, idx int, r *fw.Rand) {
+	kind := idx % 8
+	defer verifhook.Set(nil)
+	defer flushHookCounts(c)
+	switch kind {
+	case 0, 1, 2, 3:
+		directedMem(c, kind, r)
+	default:
+		directedFile(c, kind, r)
+	}
+}
+
+// directedMem pauses an AddMessage at mem.add.visible (message in its mailbox, not yet known to
+// the size enforcer) while another client removes it / purges / adds.
+func directedMem(c *fw.Ctx, kind int, r *fw.Rand) {
+	cf := cfg{"mem-maxkb", "mem", 0, 4}
+	if kind == 3 {
+		cf = cfg{"mem-cap-maxkb", "mem", 2, 4}
+	}
+	name := []string{"remove-overtakes-registration", "purge-overtakes-registration", "add-evicts-during-registration", "cap-evicts-unregistered"}[kind]
+	host := extension.NewHost()
+	rec := newRecorder()
+	drain := rec.listen(host)
+	st := newStore(c, cf, host)
+	a := &client{id: 0, st: st, rec: rec}
+	b := &client{id: 1, st: st, rec: rec}
+	now := time.Now()
+	// Preceding history.
+	for i := 0; i < r.Range(0, 3); i++ {
+		a.Add("box", r.Range(100, 900), now)
+	}
+	target := "box"
+	g := newGate(func(site string, args []string) bool { return site == "mem.add.visible" && args[0] == target })
+	verifhook.Set(g.hook)
+	done := make(chan string, 1)
+	go func() { done <- a.Add(target, r.Range(200, 1200), now) }()
+	ok, dump := c.Within(30*time.Second, func() {
+		<-g.reached
+		verifhook.Set(func(site string, args ...string) { countHook(site) })
+		// The message is visible now: find its id through the public interface.
+		ids := b.List(target)
+		if len(ids) == 0 {
+			rec.fail("message not visible at mem.add.visible")
+			close(g.release)
+			<-done
+			return
+		}
+		newID := ids[len(ids)-1]
+		switch kind {
+		case 0:
+			_ = b.Remove(target, newID)
+		case 1:
+			b.Purge(target)
+		case 2:
+			// Fill the store so that this add must evict while the paused message is unregistered.
+			for i := 0; i < 6; i++ {
+				b.Add("other", 900, now)
+			}
+		case 3:
+			// Two more adds push the paused, unregistered message out through the cap.
+			b.Add(target, 300, now)
+			b.Add(target, 300, now)
+		}
+		close(g.release)
+		<-done
+		// Afterwards the full capacity must still be usable: accounting must not have drifted.
+		b.Purge(target)
+		b.Purge("other")
+		var last string
+		for i := 0; i < 3; i++ {
+			last = b.Add("fresh", 1000, now)
+		}
+		ids = b.List("fresh")
+		if len(ids) != 3 && cf.cap == 0 {
+			rec.fail("after %s: 3 x 1016 bytes delivered into an empty 4096-byte store, %d retained (accounting drift)", name, len(ids))
+		}
+		b.Get("fresh", last)
+	})
+	if !ok {
+		select {
+		case <-g.release:
+		default:
+			close(g.release)
+		}
+		c.Hang("directed-"+name, "directed schedule did not complete: "+name, dump)
+		return
+	}
+	if !drain(c) {
+		c.Inconclusive("deleted-event listener did not drain")
+		return
+	}
+	c.Count("directed_schedules", 1)
+	c.Count("directed:"+name, 1)
+	var total int64
+	for _, mb := range []string{"box", "other", "fresh"} {
+		ms, _ := st.GetMessages(mb)
+		for _, m := range ms {
+			total += m.Size()
+		}
+		b.List(mb)
+	}
+	rec.merge(a)
+	rec.merge(b)
+	judge(c, cf, rec, "directed "+name, total)
+}
+
+// directedFile pauses a VisitMailboxes between directory levels while the directory it is about
+// to open is emptied and removed (and optionally re-created).
+func directedFile(c *fw.Ctx, kind int, r *fw.Rand) {
+	cf := cfg{"file-plain", "file", 0, 0}
+	level := []string{"1", "2", "3", "3"}[kind-4]
+	name := "visit-paused-level" + level
+	if kind == 7 {
+		name += "-readd"
+	}
+	host := extension.NewHost()
+	rec := newRecorder()
+	st := newStore(c, cf, host)
+	a := &client{id: 0, st: st, rec: rec}
+	b := &client{id: 1, st: st, rec: rec}
+	now := time.Now()
+	boxes := []string{bucketPair[0], "solo", "zed"}
+	for _, mb := range boxes {
+		for i := 0; i < r.Range(1, 3); i++ {
+			a.Add(mb, r.Range(10, 400), now)
+		}
+	}
+	g := newGate(func(site string, args []string) bool { return site == "file.visit.level" && args[0] == level })
+	verifhook.Set(g.hook)
+	var verr error
+	done := make(chan struct{})
+	go func() { verr = a.Visit(nil); close(done) }()
+	ok, dump := c.Within(30*time.Second, func() {
+		<-g.reached
+		verifhook.Set(func(site string, args ...string) { countHook(site) })
+		// Empty every mailbox: all directories below the one being walked disappear.
+		for _, mb := range boxes {
+			b.Purge(mb)
+		}
+		if kind == 7 {
+			b.Add("solo", 50, now)
+		}
+		close(g.release)
+		<-done
+	})
+	if !ok {
+		select {
+		case <-g.release:
+		default:
+			close(g.release)
+		}
+		c.Hang("directed-"+name, "directed schedule did not complete: "+name, dump)
+		return
+	}
+	_ = verr // recorded by Visit through rec.fail
+	c.Count("directed_schedules", 1)
+	c.Count("directed:"+name, 1)
+	for _, mb := range boxes {
+		b.List(mb)
+	}
+	rec.merge(a)
+	rec.merge(b)
+	judge(c, cf, rec, "directed "+name, 0)
+}
